@@ -21,7 +21,7 @@ from symx.tokharness import Ctx
 PID = "C12"
 
 SIGMA_H = ["typedef", "int", "x", "T", ";", "{", "}", "(", ")", "=", "*", ",", "struct", "IDENT:y", "1", "void",
-           "PPPRAGMA:pragma", "PPPRAGMASTR:omp x", "sizeof", "enum", "[", "]"]
+           "PPPRAGMA:pragma", "PPPRAGMASTR:pack(1)", "sizeof", "enum", "[", "]"]
 SIGMA_T = ["int", "x", "T", ";", "(", ")", "*", "=", "{", "}", "typedef", "1", ",", "sizeof", "IDENT:y"]
 
 # history contexts: prefix + holes (no suffix: histories may stop anywhere)
